@@ -27,7 +27,7 @@ def level_filter(ctx):
     cfg = CFG(h.node, m, h.module)
     sends = func_calls(h.node, attr='send_log')
     if not sends:
-        raise AnchorMissing('send_log call in RemoteLogHandler.handle not found')
+        raise AnchorMissing('send_log call in RemoteLogHandler.handle not found', violation='frappy.logging.RemoteLogHandler.handle:send_log present')
     # loop variable holding the subscribed level
     levvars = set()
     for n in body_walk(h.node):
@@ -65,7 +65,7 @@ def level_filter(ctx):
                   f'forwarded iff `{l} {op} {r}`; required: <subscribed level of this connection> <= record.levelno', h)
 
 
-@rule('C20.R2', min_instances=2)
+@rule('C20.R2', min_instances=1)
 def off_removes(ctx):
     """set_conn_level: on OFF the entry of conn is removed, otherwise subscriptions[conn] = level; keyed by conn"""
     m = ctx.m
